@@ -1,6 +1,76 @@
-(* C03 — placeholder while the invariants are being proved (see Proofs/ExecProofs.v). *)
-From Coq Require Import List.
-From FB Require Import Model.Exec.
-Example C03_model_runs : exists nt s, run nt 1 (init nt) nil = Ok s.
-Proof. exists nil, (init nil). reflexivity. Qed.
-Print Assumptions C03_model_runs.
+(* C03 — Clean shutdown drains the whole pipeline and orders node lifecycles.
+   Proofs in Proofs/ExecLife.v (invariant over every schedule), ExecLink.v, ExecSpec.v, ExecTerminal.v.
+   Liveness (that a clean run DOES end when nodes finish) is not proved: see DESIGN.md; the correspondence
+   runs observe termination on every generated scenario. *)
+From Coq Require Import List ZArith Bool Arith.
+From FB Require Import Model.Exec Model.TraceSpec Model.ExecInv.
+From FB Require Proofs.ExecLife Proofs.ExecProps Proofs.ExecSpec Proofs.ExecTerminal.
+Import ListNotations.
+
+(* no interleaving makes the framework panic: no send on a closed channel, no double close *)
+Theorem C03_no_panic : forall nt T sch, wf_net nt = true -> run nt T (init nt) sch <> Panic.
+Proof. exact ExecLife.run_no_panic. Qed.
+
+(* Shutdown is entered at most once per node ... *)
+Theorem C03_shutdown_at_most_once : forall nt T s n,
+  once (node s n) <> ONone -> forall w, step nt T s (OnceEnter n w) = NotEnabled.
+Proof. exact ExecLife.once_enter_once. Qed.
+
+(* ... only after every processing call of the node has returned (no worker idle, in Process, or delivering),
+   and no event is handed to the node in that or any later state *)
+Theorem C03_shutdown_after_calls : forall nt T s n, wf_net nt = true -> reachable nt T s ->
+  n < length nt -> once (node s n) <> ONone ->
+  forallb wpast (ws (node s n)) = true /\ forall w, step nt T s (Deq n w) = NotEnabled.
+Proof. exact ExecLife.shutdown_after_calls. Qed.
+Theorem C03_no_event_after_shutdown_begins : forall nt T s n sch s', wf_net nt = true -> reachable nt T s ->
+  n < length nt -> once (node s n) <> ONone -> run nt T s sch = Ok s' ->
+  forall w, step nt T s' (Deq n w) = NotEnabled.
+Proof. exact ExecLife.no_deq_after_shutdown_begins. Qed.
+
+(* children and error handler stay open until the node's Shutdown has returned (the once completed) ... *)
+Theorem C03_kids_open_until_shutdown_returns : forall nt T s n c, wf_net nt = true -> reachable nt T s ->
+  n < length nt -> In c (targets (info nt n)) -> once (node s n) <> ODone -> closed (node s c) = false.
+Proof. exact ExecLife.kids_open_until_shutdown_returns. Qed.
+(* ... so whatever any goroutine still has to deliver (a worker, the main goroutine, an async callback fired
+   from inside Shutdown) targets an open channel *)
+Theorem C03_pending_targets_open : forall nt T s, wf_net nt = true -> reachable nt T s ->
+  (forall cb d, In cb (cbs s) -> In d (snd cb) -> closed (node s (fst d)) = false)
+  /\ (forall n w p d, n < length nt -> nth_error (ws (node s n)) w = Some (WSend p) -> In d p ->
+        closed (node s (fst d)) = false)
+  /\ (forall it rs r, mn s = MDeliver it rs -> In r rs -> closed (node s r) = false).
+Proof. exact ExecLife.pending_targets_open. Qed.
+
+(* Execute returns cleanly only when everything is drained: no callback thread, every worker returned, nothing
+   in flight, every node's Shutdown completed, every channel closed and empty *)
+Theorem C03_clean_end_is_drained : forall nt T s, wf_net nt = true -> reachable nt T s -> mn s = MDone -> timedout s = false ->
+  cbs s = []
+  /\ forall n, n < length nt ->
+       forallb wexit (ws (node s n)) = true /\ inflight (node s n) = []
+       /\ (0 < nworkers (info nt n) ->
+             once (node s n) = ODone /\ q (node s n) = [] /\ closed (node s n) = true).
+Proof. exact ExecLife.clean_done. Qed.
+
+(* ... and every emitted event is then accounted for at every node it reaches (C01_clean_end_exact) *)
+Theorem C03_clean_end_exact : forall nt T s c x,
+  ExecProps.good_net nt -> reachable nt T s -> mn s = MDone -> timedout s = false -> c < length nt ->
+  count_item x (supply nt c (tr s)) = count_item x (entered c (tr s)) + count_item x (dropped (node s c))
+  /\ q (node s c) = [] /\ pending c x s = 0.
+Proof. exact ExecProps.clean_end_exact. Qed.
+
+(* the ordering clauses evaluated on the implementation's traces (TraceSpec: (3,1) Shutdown once, (3,2) after
+   all calls returned, (3,3) only after the feeder's Shutdown returned / the source finished, (3,4) no event
+   after Shutdown began, (3,6) everything shut down at a clean end, (3,7) everything handed over was processed)
+   hold of every run of the model *)
+Theorem C03_spec_sound : forall nt T s, wf_net nt = true -> forallb (fun x => Nat.ltb 0 (nworkers x)) nt = true ->
+  reachable nt T s -> trace_ok nt (tr s) = [].
+Proof. exact ExecSpec.trace_ok_reachable. Qed.
+
+Print Assumptions C03_no_panic.
+Print Assumptions C03_shutdown_at_most_once.
+Print Assumptions C03_shutdown_after_calls.
+Print Assumptions C03_no_event_after_shutdown_begins.
+Print Assumptions C03_kids_open_until_shutdown_returns.
+Print Assumptions C03_pending_targets_open.
+Print Assumptions C03_clean_end_is_drained.
+Print Assumptions C03_clean_end_exact.
+Print Assumptions C03_spec_sound.
